@@ -242,8 +242,11 @@ func (x *Exec) applyContract1(st *State, pk *Pkg, fn *ssa.Function, fc *FuncCont
 		x.havocTarget(st, env, a, fmt.Sprintf("c%d", seq))
 	}
 	// the callee may allocate
+	// region ids: the caller's own allocations so far are below base+2^19, the callee's fresh regions lie in
+	// [base+2^19, newbase), and everything allocated later is at or above newbase >= base+2^20
+	env.allocPre = o.Add(pre.Alloc, o.Int(1<<19))
 	na := o.Fresh(fmt.Sprintf("alloc.c%d", seq), IntSort)
-	x.assume(o.Ge(na, st.Alloc))
+	x.assume(o.Ge(na, o.Add(st.Alloc, o.Int(1<<20))))
 	st.Alloc = na
 	// results
 	res := fn.Signature.Results()
@@ -346,6 +349,7 @@ func (x *Exec) havocTarget(st *State, env *SpecEnv, target string, tag string) {
 			sl = sv
 			lo, hi = o.Idx(0), sl.Len
 		}
+		x.catDirty = true
 		old := o.Select(st.H, sl.Reg)
 		na := o.Fresh(tag+".arr", o.ByteArr())
 		i := o.BoundVar("i", o.IdxSort())
@@ -412,6 +416,7 @@ func (x *Exec) builtin(st *State, name string, c *ssa.CallCommon, args []Val) Va
 		src := x.seqView(st, args[1])
 		n := o.Ite(o.IdxLt(dst.Len, src.Len), dst.Len, src.Len)
 		x.writeRange(st, dst.Reg, o.IdxAdd(dst.Off, o.Idx(0)), src, n)
+		x.catDirty = true
 		return n
 	case "recover":
 		return x.recoverVal(st)
@@ -436,7 +441,12 @@ func (x *Exec) lenOfCode(v Val) (res *Term) {
 // src is a snapshot taken before the write).
 func (x *Exec) writeRange(st *State, reg, base *Term, src StrVal, n *Term) {
 	o := x.o
-	old := o.Select(st.H, reg)
+	st.H = o.Store(st.H, reg, x.writeArr(o.Select(st.H, reg), base, src, n))
+}
+
+// writeArr: the array old with old[base+i] = src[i] for 0 <= i < n.
+func (x *Exec) writeArr(old, base *Term, src StrVal, n *Term) *Term {
+	o := x.o
 	if k, ok := n.ConstInt64(); ok && k <= 64 {
 		if o.M.BV {
 			k = bvSigned(n.IVal, 64).Int64()
@@ -445,31 +455,29 @@ func (x *Exec) writeRange(st *State, reg, base *Term, src StrVal, n *Term) {
 		for i := int64(0); i < k; i++ {
 			cur = o.Store(cur, o.IdxAdd(base, o.Idx(i)), o.SelByte(src.Arr, o.IdxAdd(src.Off, o.Idx(i))))
 		}
-		st.H = o.Store(st.H, reg, cur)
-		return
+		return cur
 	}
 	// bounded symbolic length: conditional stores
 	if b := o.Bounds(n); !o.M.BV && b.hi != nil && b.hi.IsInt64() && b.hi.Int64() <= 24 {
 		cur := old
 		for i := int64(0); i < b.hi.Int64(); i++ {
-			// value-level conditional: beyond n the old byte is written back
 			// (array-level conditional: measured to be much easier for the solvers than a value-level one)
 			at := o.IdxAdd(base, o.Idx(i))
 			cur = o.Ite(o.IdxLt(o.Idx(i), n), o.Store(cur, at, o.SelByte(src.Arr, o.IdxAdd(src.Off, o.Idx(i)))), cur)
 		}
-		st.H = o.Store(st.H, reg, cur)
-		return
+		return cur
 	}
 	na := o.Fresh("wr", o.ByteArr())
 	i := o.BoundVar("i", o.IdxSort())
 	in := o.And(o.IdxLe(base, i), o.IdxLt(i, o.IdxAdd(base, n)))
 	x.assume(o.Forall([]*Term{i}, o.Eq(o.Select(na, i),
 		o.Ite(in, o.Select(src.Arr, o.IdxAdd(src.Off, o.IdxSub(i, base))), o.Select(old, i)))))
-	st.H = o.Store(st.H, reg, na)
+	return na
 }
 
 // appendSeq: Go's append(dst, src...) — in place when capacity suffices, otherwise into a fresh region.
-// A fresh region keeps the index space of the old one (so no copy is needed in the model).
+// A fresh region keeps the index space of the old one, so the contents after the append are the same array in
+// both cases (old contents with src written at off+len); only the region that holds them differs.
 func (x *Exec) appendSeq(st *State, dst SliceVal, src StrVal) SliceVal {
 	o := x.o
 	if n, ok := src.Len.ConstInt64(); ok && n == 0 {
@@ -477,16 +485,11 @@ func (x *Exec) appendSeq(st *State, dst SliceVal, src StrVal) SliceVal {
 	}
 	newLen := o.IdxAdd(dst.Len, src.Len)
 	fits := o.IdxLe(newLen, dst.Cap)
-	fresh := st.Alloc
-	st.Alloc = o.Add(st.Alloc, o.Int(1))
+	fresh := x.newRegion(st)
 	reg := o.Ite(fits, dst.Reg, fresh)
-	// a fresh region starts as a copy of the old one
 	oldArr := o.Select(st.H, dst.Reg)
-	if !fits.IsTrue() {
-		// the fresh region is initialised unconditionally: it is unreferenced when the append happens in place
-		st.H = o.Store(st.H, fresh, oldArr)
-	}
-	x.writeRange(st, reg, o.IdxAdd(dst.Off, dst.Len), src, src.Len)
+	newArr := x.writeArr(oldArr, o.IdxAdd(dst.Off, dst.Len), src, src.Len)
+	st.H = o.Store(st.H, reg, newArr)
 	nc := o.Fresh("cap", o.IdxSort())
 	x.assumeLen(nc)
 	x.assume(o.IdxLe(newLen, nc))
@@ -496,7 +499,11 @@ func (x *Exec) appendSeq(st *State, dst SliceVal, src StrVal) SliceVal {
 		x.assume(o.Le(o.Add(dst.Off, nc), o.IntBig(tyInt.Max())))
 	}
 	cp := o.Ite(fits, dst.Cap, nc)
-	return SliceVal{Reg: reg, Off: dst.Off, Len: newLen, Cap: cp, Elem: dst.Elem}
+	res := SliceVal{Reg: reg, Off: dst.Off, Len: newLen, Cap: cp, Elem: dst.Elem}
+	if dst.Cat != nil {
+		res.Cat = append(append([]StrVal{}, dst.Cat...), src)
+	}
+	return res
 }
 
 func (x *Exec) appendByte(st *State, dst SliceVal, b *Term) SliceVal {
@@ -926,4 +933,14 @@ func (x *Exec) harvestBounds(t *Term) {
 		}
 	}
 	walk(t)
+}
+
+// newRegion: a region id never used before: the state's allocation base plus a globally unique small offset
+// (distinct allocation events of one base are syntactically distinct constants apart).
+func (x *Exec) newRegion(st *State) *Term {
+	x.regionSeq++
+	if x.regionSeq >= 1<<19 {
+		x.fail("too many allocations in one function")
+	}
+	return x.o.Add(st.Alloc, x.o.Int(int64(x.regionSeq)))
 }
